@@ -262,7 +262,7 @@ def gen_storage(rng, g, name, nodes, f, price_key=None, window=True, mip=False, 
     el = pick(rng, [sl, sl, 0., size / 4.])
     a = {'type': 'Storage', 'name': name, 'nodes': list(nodes), 'size': size, 'cap_in': r2(pick(rng, [1., 2.]) * f),
          'cap_out': r2(pick(rng, [1., 2.]) * f), 'start_level': sl, 'end_level': el,
-         'eff_in': pick(rng, [1., 1., 0.9, 0.8]), 'inflow': r2(pick(rng, [0., 0., 0.05]) * f) if inflow else 0.,
+         'eff_in': pick(rng, [1., 1., 1., 0.9, 0.9, 0.8, 0.8, 1.25]), 'inflow': r2(pick(rng, [0., 0., 0.05]) * f) if inflow else 0.,
          'cost_in': pick(rng, [0., 0., 0.1]), 'cost_out': pick(rng, [0., 0., 0.2]),
          'cost_store': r2(pick(rng, [0., 0., 0.01]) * f), 'wacc': pick(rng, [0., 0., 0.3])}
     if price_key is not None and rng.random() < 0.3:
